@@ -6,6 +6,7 @@ import (
 	"net"
 
 	"github.com/cilium/ebpf"
+	"github.com/codelaboratoryltd/bng/pkg/radius"
 	"go.uber.org/zap"
 )
 
@@ -132,3 +133,32 @@ func init() {
 	vHarness["VerifC19_PolicyEnforced"] = VerifC19_PolicyEnforced
 	vHarness["VerifC19_BucketStep"] = VerifC19_BucketStep
 }
+
+// Bindings of a named policy take effect exactly as written, also when the same name is applied again after the
+// policy was redefined (rate, burst or priority changed): the bucket in the map carries the current definition.
+func VerifC19_PolicyReapply() {
+	vBPFMapsMode("null")
+	m := verifQoSManager()
+	pm := radius.NewPolicyManager()
+	m.policyMgr = pm
+	ip := net.IP{10, 1, 2, 3}
+	r1 := vRates[ndPick("rate1", 3)]
+	vAssume(pm.AddPolicy(&radius.QoSPolicy{Name: "gold", DownloadBPS: r1, UploadBPS: r1, BurstSize: ndU32("burst1"), Priority: ndU8("prio1") & 7}) == nil)
+	vAssume(m.SetSubscriberPolicy(ip, "gold") == nil)
+	// the operator redefines the policy under the same name: arbitrary new burst and priority, same or new rate
+	r2 := r1
+	if ndPick("rate-changes", 2) == 1 {
+		r2 = vRates[3]
+	}
+	b2, p2 := ndU32("burst2"), ndU8("prio2")&7
+	vAssume(b2 >= 1)
+	vAssume(pm.AddPolicy(&radius.QoSPolicy{Name: "gold", DownloadBPS: r2, UploadBPS: r2, BurstSize: b2, Priority: p2}) == nil)
+	vAssume(m.SetSubscriberPolicy(ip, "gold") == nil)
+	var tb TokenBucket
+	key := ipToKey(ip)
+	vAssume(m.qosEgress.Lookup(&key, &tb) == nil)
+	vAssert(tb.RateBPS == r2 && tb.BurstBytes == b2 && tb.Priority == p2, "the bucket enforced for the subscriber does not carry the policy as currently defined")
+	vReach("end")
+}
+
+func init() { vHarness["VerifC19_PolicyReapply"] = VerifC19_PolicyReapply }
